@@ -19,7 +19,23 @@ def observe(job):
     mdp = job["mdp"]
     tn, td = job["tol"]
     ns, na, ne, PD = mdp["ns"], mdp["na"], mdp["ne"], mdp["PD"]
-    if job.get("forest"):
+    K = int(job.get("K", 41))
+    fk = job.get("fk") or [[[0] * ne for _ in range(na)] for _ in range(ns)]
+    tf = int(job.get("tf", 0))
+    if job.get("fk"):
+        # probabilities pk/PD + fk * 2^-K: exactly representable, and every partial sum is too
+        fine = np.array(fk, dtype=np.float64) * 2.0 ** -K
+        base = T.make_problem(mdp)
+        cls = type(base)
+        tab = np.array(mdp["pk"], dtype=np.float64) / PD + fine
+        tab = np.concatenate([tab, tab[:1]])          # ghost row (vectors outside the state space), as in tabular.py
+
+        class FineProblem(cls):
+            def random_event_probability(self, state, action, random_event):
+                import jax.numpy as jnp
+                return jnp.asarray(tab)[self._row(state), self._aidx(action), self._eidx(random_event)]
+        prob = FineProblem()
+    elif job.get("forest"):
         from mdpax.problems import Forest
         prob = Forest(**job["forest"])       # the tables in job["mdp"] are the documented Forest dynamics
     else:
@@ -27,10 +43,10 @@ def observe(job):
     rs = 2 ** mdp["rexp"]
     m = {"ns": ns, "na": na, "ne": ne, "next": [[[n + 1 for n in row] for row in sa] for sa in mdp["next"]],
          "rew": mdp["rew"], "pk": mdp["pk"], "PD": PD, "GN": 1, "GD": 2}
-    o = {"m": m, "tn": tn, "td": td, "outcome": "ok", "errs": 0, "erra": 0, "P": [], "R": [], "pok": False,
+    o = {"m": m, "tn": tn, "td": td, "fk": fk, "tf": tf, "K": K, "outcome": "ok", "errs": 0, "erra": 0, "P": [], "R": [], "pok": False,
          "rok": False, "unit": False, "propok": False, "shapeok": False, "msg": ""}
     try:
-        P, R = prob.build_transition_and_reward_matrices(normalization_tolerance=tn / td)
+        P, R = prob.build_transition_and_reward_matrices(normalization_tolerance=tn / td + tf * 2.0 ** -K)
     except ValueError as ex:
         o["outcome"] = "error"
         o["msg"] = str(ex)[:200]
@@ -56,7 +72,7 @@ def observe(job):
     for s in range(ns):
         for a in range(na):
             for e in range(ne):
-                acc[a, s, mdp["next"][s][a][e]] += mdp["pk"][s][a][e]
+                acc[a, s, mdp["next"][s][a][e]] += mdp["pk"][s][a][e] + fk[s][a][e] * 2.0 ** -K * PD
     rows = acc.sum(axis=-1, keepdims=True)
     with np.errstate(divide="ignore", invalid="ignore"):
         expect = np.where(rows > 0, acc / np.where(rows > 0, rows, 1.0), 0.0)
